@@ -485,4 +485,75 @@ def runHandleCommandD (body : Stmt) (e : EOracle) (fuel : Nat) : Nat → St → 
 def runHandleCommand (body : Stmt) (e : EOracle) (fuel : Nat) (s : St) (c : Cmd) : Option St :=
   runHandleCommandD body e fuel (cmdDepth c + 1) s c
 
+/-! ## The `Run` loop over the interpreted bodies
+
+`Model.Vxfw.eRun` with every handler function it calls replaced by the interpreter run on that function's body:
+the event switch and the frame step of `App.Run` stay transcribed (`Model/VxfwErr.lean`), the seven functions they
+call are executed from syntax (inside them `app.handleCommand` / `m.update` / `f.focusWidget` are the model functions,
+which the body theorems of `handleCommand`, `update`, `focusWidget` identify with their bodies one level down). -/
+
+structure Bodies where
+  focusHandleEvent : Stmt
+  mouseHandleEvent : Stmt
+  mouseUpdate : Stmt
+  mouseExit : Stmt
+  mouseEnter : Stmt
+  updatePath : Stmt
+
+/-- Loop fuel for the index loop of `mouseHandler.handleEvent`: the hit list after `update` is the old one or the new one. -/
+def mouseLoopFuel (s : St) (c r : Int) : Nat := s.lastHits.length + (hitsAt s.lastFrame c r).length + 1
+
+/-- The event switch; nesting budget `fuel + 1`. -/
+def bRunEvent (B : Bodies) (e : EOracle) (fuel : Nat) (s : St) : RunEv → Option (St × Bool)
+  | .resize => some ({ s with redraw := true }, false)
+  | .mouse c r => runMouseHandleEvent B.mouseHandleEvent e (fuel + 1) s c r (mouseLoopFuel s c r)
+  | .focusIn => runMouseEnter B.mouseEnter e (fuel + 1) s s.root
+  | .focusOut => runMouseExit B.mouseExit e (fuel + 1) { s with mouse := none }
+  | .key k => runFocusHandleEvent B.focusHandleEvent e (fuel + 1) s (.key k) (s.path.length + 1)
+  | .redraw => some ({ s with redraw := true }, false)
+  | .other k => runFocusHandleEvent B.focusHandleEvent e (fuel + 1) s (.custom k) (s.path.length + 1)
+
+/-- The timer arm (`eRunFrame`) with `mh.update` and `a.fh.updatePath` run from their bodies. -/
+def bRunFrame (B : Bodies) (e : EOracle) (fuel : Nat) (s : St) (t1 t2 : STree) : Option (St × Bool) :=
+  if !s.redraw then some (s, false) else
+  let s := { s with redraw := false, trace := s.trace ++ [.draw] }
+  match runMouseUpdate B.mouseUpdate e (fuel + 1) s t1 with
+  | none => none
+  | some x =>
+    if x.2 then some x else
+    let s := x.1
+    let r : St × STree :=
+      if s.redraw then ({ s with redraw := false, trace := s.trace ++ [.draw] }, t2) else (s, t1)
+    let t := sortTree r.2
+    let s := { r.1 with refresh := false, debug := false }
+    match runUpdatePath B.updatePath e fuel s t with
+    | none => none
+    | some s => some ({ s with lastFrame := t }, false)
+
+def bRunInit (B : Bodies) (e : EOracle) (fuel : Nat) (root : Id) (t : STree) : Option (St × Bool) :=
+  match runFocusHandleEvent B.focusHandleEvent e (fuel + 1) (St.init root) .init 2 with
+  | none => none
+  | some r => if r.2 then some r else some ({ r.1 with trace := r.1.trace ++ [.draw], lastFrame := t }, false)
+
+def bRunStep (B : Bodies) (e : EOracle) (fuel : Nat) (s : St) : Step → Option (St × Bool)
+  | .ev ev => bRunEvent B e fuel s ev
+  | .frame t1 t2 => bRunFrame B e fuel s t1 t2
+
+def bRunSteps (B : Bodies) (e : EOracle) (fuel : Nat) : St → List Step → Option (St × Bool)
+  | s, [] => some (s, false)
+  | s, st :: rest =>
+    match bRunStep B e fuel s st with
+    | none => none
+    | some r =>
+      if r.2 then some r else
+      match st with
+      | .ev _ => if r.1.quit then some r else bRunSteps B e fuel r.1 rest
+      | .frame _ _ => bRunSteps B e fuel r.1 rest
+
+/-- `App.Run` over the interpreted bodies. -/
+def bRun (B : Bodies) (e : EOracle) (fuel : Nat) (root : Id) (t0 : STree) (steps : List Step) : Option (St × Bool) :=
+  match bRunInit B e fuel root t0 with
+  | none => none
+  | some r => if r.2 then some r else bRunSteps B e fuel r.1 steps
+
 end VaxisModel.Model.VxfwInterp
